@@ -8,7 +8,7 @@ import re
 import common
 import pipe_common
 
-STALE_RE = re.compile(r"op (\d+) (IFM2?): byte (\d+) of region (\d+): expected tensor (\d+) delta (-?\d+), found tensor (\d+) delta (-?\d+)")
+STALE_RE = re.compile(r"op (\d+) (IFM2?): byte (\d+) of region (\d+): expected tensor (\d+) delta (-?\d+), found (?:tensor (\d+) delta (-?\d+)|undefined)")
 
 
 def classify_tagged(msg, metas):
@@ -25,17 +25,20 @@ def classify_tagged(msg, metas):
     if not m:
         return None
     idx = int(m.group(1))
-    if m.group(5) != m.group(7) or idx >= len(metas):
+    if idx >= len(metas):
         return None
-    if c10_lib.rolling_defect(idx, metas):
-        return "cascade-rolling-buffer-stale-row:pad_top>kdil-stride"
     meta = metas[idx]
+    same_tensor = m.group(5) == m.group(7)
+    if same_tensor and c10_lib.rolling_defect(idx, metas):
+        return "cascade-rolling-buffer-stale-row:pad_top>kdil-stride"
     # the hardware reads more columns than Vela's own IFM box holds (kernel wider than the box, no right padding
     # programmed): the extra columns come from an unprogrammed tile. Seen for the stride>3 convolution lowering and for
     # the softmax lowering after a fused slice; whether the values matter numerically is C01's subject.
-    if m.group(2) == "IFM" and meta.get("hw_ifm_w") is not None and meta["hw_ifm_w"] > meta.get("box_ifm_w", 1 << 30) \
-            and meta.get("ifm_width0") == meta.get("box_ifm_w"):
-        return "ifm-box-narrower-than-hardware-read-width"
+    if m.group(2) == "IFM" and meta.get("hw_ifm_w") is not None:
+        wide = meta["hw_ifm_w"] > meta.get("box_ifm_w", 1 << 30) and meta.get("ifm_width0") == meta.get("box_ifm_w")
+        tall = meta.get("hw_ifm_h", 0) > meta.get("box_ifm_h", 1 << 30) and meta.get("ifm_height0") == meta.get("box_ifm_h")
+        if wide or tall:
+            return "ifm-box-smaller-than-hardware-read-extent"
     return None
 
 
